@@ -1003,9 +1003,14 @@ impl PoolCase {
             return vec!["bad-op".into()];
         }
         self.feats.push("cross-ring-read".into());
-        simk::purge_closed();
+        simk::purge_closed_except(self.rfd);
+        let held_main = simk::hold_fd(self.rfd);
         let before: Vec<i32> = simk::with_sim(|s| s.rings.keys().copied().collect());
-        let mut ring_b = match Ring::config().with_submission_queue_size(8).build() {
+        let built_b = Ring::config().with_submission_queue_size(8).build();
+        if held_main {
+            simk::release_fd(self.rfd);
+        }
+        let mut ring_b = match built_b {
             Ok(r) => r,
             Err(e) => return vec![format!("xring setup-failed {e}")],
         };
@@ -1084,9 +1089,14 @@ impl PoolCase {
             return vec!["bad-op".into()];
         }
         self.feats.push("readbuf-outlives-pool-handle".into());
-        simk::purge_closed();
+        simk::purge_closed_except(self.rfd);
+        let held_main = simk::hold_fd(self.rfd);
         let before: Vec<i32> = simk::with_sim(|s| s.rings.keys().copied().collect());
-        let mut ring_b = match Ring::config().with_submission_queue_size(8).build() {
+        let built_b = Ring::config().with_submission_queue_size(8).build();
+        if held_main {
+            simk::release_fd(self.rfd);
+        }
+        let mut ring_b = match built_b {
             Ok(r) => r,
             Err(e) => return vec![format!("lone setup-failed {e}")],
         };
